@@ -22,3 +22,12 @@ Props/MapProps.vos Props/MapProps.vok Props/MapProps.required_vos: Props/MapProp
 Props/ColorProps.vo Props/ColorProps.glob Props/ColorProps.v.beautified Props/ColorProps.required_vo: Props/ColorProps.v Lib/U63Ops.vo Lib/Sweep.vo
 Props/ColorProps.vio: Props/ColorProps.v Lib/U63Ops.vio Lib/Sweep.vio
 Props/ColorProps.vos Props/ColorProps.vok Props/ColorProps.required_vos: Props/ColorProps.v Lib/U63Ops.vos Lib/Sweep.vos
+Spec/ISA.vo Spec/ISA.glob Spec/ISA.v.beautified Spec/ISA.required_vo: Spec/ISA.v 
+Spec/ISA.vio: Spec/ISA.v 
+Spec/ISA.vos Spec/ISA.vok Spec/ISA.required_vos: Spec/ISA.v 
+Spec/Spec816.vo Spec/Spec816.glob Spec/Spec816.v.beautified Spec/Spec816.required_vo: Spec/Spec816.v Spec/ISA.vo
+Spec/Spec816.vio: Spec/Spec816.v Spec/ISA.vio
+Spec/Spec816.vos Spec/Spec816.vok Spec/Spec816.required_vos: Spec/Spec816.v Spec/ISA.vos
+Spec/Spec816Examples.vo Spec/Spec816Examples.glob Spec/Spec816Examples.v.beautified Spec/Spec816Examples.required_vo: Spec/Spec816Examples.v Spec/ISA.vo Spec/Spec816.vo
+Spec/Spec816Examples.vio: Spec/Spec816Examples.v Spec/ISA.vio Spec/Spec816.vio
+Spec/Spec816Examples.vos Spec/Spec816Examples.vok Spec/Spec816Examples.required_vos: Spec/Spec816Examples.v Spec/ISA.vos Spec/Spec816.vos
